@@ -103,9 +103,21 @@ BASE_POINTS = [
 ROUTES = ["db.update", "db.update_m", "db.update_all", "h.update", "h.update_all"]
 
 
+# wrong values that compare equal (==, same hash) to a valid value of the slot: a cache keyed on equality could let them through
+EQUAL_TWINS = {True: 1, False: 0}
+
+
 def battery():
     """Deterministic list of cases (dicts)."""
     cases = []
+    for wi, w in enumerate(WRONG["field_value"]):
+        if isinstance(w, bool):
+            cases.append({"entry": "ctor", "slot": "field_value", "wi": wi, "primed": True})
+            cases.append({"entry": "setter", "slot": "field_value", "wi": wi, "primed": True})
+            for cfg in range(4):
+                for route in ROUTES:
+                    cases.append({"entry": "update_static", "slot": "field_value", "wi": wi, "cfg": cfg, "route": route, "primed": True})
+                    cases.append({"entry": "update_callable", "slot": "field_value", "wi": wi, "cfg": cfg, "route": route, "primed": True})
     for slot, ws in WRONG.items():
         for wi in range(len(ws)):
             cases.append({"entry": "ctor", "slot": slot, "wi": wi})
@@ -172,8 +184,16 @@ def run_case(case, ctx, wrong_value=None):
         w = WRONG[case["slot"]][case["wi"]]
     show = dict(case, value=repr(w))
     acc.ev()
+    twin = None
+    if case.get("primed"):
+        # the same call with the ==-equal valid value first (must be accepted), then the wrong value (must still be rejected)
+        _, twin = embed(case["slot"], EQUAL_TWINS[w])
     if entry in ("ctor", "setter"):
         arg, val = embed(case["slot"], w)
+        if twin is not None:
+            Point(**{arg: copy.deepcopy(twin)})
+            p0 = Point(time=T0, measurement="m", tags={"a": "x"}, fields={"a": 1})
+            setattr(p0, arg, copy.deepcopy(twin))
         if entry == "ctor":
             expect_raise(show, lambda: Point(**{arg: copy.deepcopy(val) if not isinstance(w, Obj) else val}))
             # also next to otherwise valid arguments
@@ -234,6 +254,15 @@ def run_case(case, ctx, wrong_value=None):
                     return h.update(q, **k)
                 return h.update_all(**k)
 
+            if twin is not None:
+                saved = kw
+                kw = {arg: copy.deepcopy(twin)} if entry == "update_static" else {arg: (lambda old, _v=twin: copy.deepcopy(_v))}
+                try:
+                    call()
+                except Exception as e:
+                    raise Violation("valid-rejected", show, "the valid twin %r of %r was rejected: %r" % (twin, show, e))
+                expected = [model.from_point(p) for p in db.all(sorted=False)]
+                kw = saved
             expect_raise(show, call)  # alone: always an error (a falsy value alone means "no arguments")
             check_contents(show, db, expected)
             # next to a valid other argument: a truthy wrong value must still raise; a falsy one means "not given"
@@ -251,7 +280,7 @@ def run_case(case, ctx, wrong_value=None):
 
 
 def nontrivial(case):
-    return case["entry"] == "update_callable" or case.get("slot") in ("tag_key", "tag_value", "field_key", "field_value") or case.get("route", "").endswith("_mid")
+    return case.get("primed") or case["entry"] == "update_callable" or case.get("slot") in ("tag_key", "tag_value", "field_key", "field_value") or case.get("route", "").endswith("_mid")
 
 
 def shards(tier):
